@@ -588,7 +588,11 @@ def random_graph(rng, depth=0, maxdepth=3, max_nodes=8, slash=False, meta_p=0.3,
             if names and r < 0.75:
                 return rng.choice(names)
             if names and r < 0.9:
-                return rng.choice(names) + "." + rng.choice(["input", "output", "x", "a.b"])
+                x = rng.choice(names)
+                inner = [n for n, _ in dict(nodes)[x].get("nodes", [])] if dict(nodes)[x]["type"] == "NIRGraph" else []
+                if inner and rng.random() < 0.7:
+                    return x + "." + rng.choice(inner)            # a port of the nested graph, by its real name
+                return x + "." + rng.choice(["input", "output", "x", "a.b"])
             return rng.choice(["ghost", "nowhere.x", "é"])
         edges.append([endpoint(), endpoint()])
     if edges and rng.random() < 0.3:
